@@ -60,11 +60,22 @@ def judge(v, start, tree, text, intended):
     """Returns (fail, precondition_ok)."""
     g = grammar(v)
     try:
-        if not tokenizes_as_intended(g, text, intended):
-            return None, False
+        ok = tokenizes_as_intended(g, text, intended)
     except RecursionError:
         raise
     except Exception:
+        ok = False
+    if not ok:
+        # the precondition must not hide a lexical defect: every generated spelling of a NAME / NUMBER / STRING is a
+        # valid Python literal and has to come back as exactly one token of its kind when tokenized on its own
+        for sym, txt in intended:
+            if sym in ('NAME', 'NUMBER', 'STRING') and '\n' not in txt and '\r' not in txt:
+                try:
+                    toks = [(t.type.name, t.string) for t in tokenize(txt, version_info=g.version_info)]
+                except Exception as e:
+                    return crash_signature(e), True
+                if toks[:-1] != [(sym, txt)]:
+                    return ('spelling-not-one-token', '%s spelled %r tokenizes as %r' % (sym, txt, toks[:-1])), True
         return None, False
     kw = {} if start == 'file_input' else {'start_symbol': start}
     try:
